@@ -211,6 +211,6 @@ def strat_bec2(tier):
 
 def parts(tier):
     return [
-        Part("bf3_layout", check=check_bf3, strategy=strat_bf3, quick=(12, 250), thorough=(16, 4000)),
-        Part("bec2_layout", check=check_bec2, strategy=strat_bec2, quick=(16, 40), thorough=(16, 1200)),
+        Part("bf3_layout", check=check_bf3, strategy=strat_bf3, quick=(16, 400), thorough=(16, 4000)),
+        Part("bec2_layout", check=check_bec2, strategy=strat_bec2, quick=(16, 150), thorough=(16, 1200)),
     ]
